@@ -41,3 +41,138 @@ func VerifC09Invariant() {
 	verifrt.Assert(0 <= b.tokens && b.tokens <= max, "0 <= tokens <= max preserved")
 	verifrt.Assert(!b.lastRefill.After(verifrt.Now()), "lastRefill <= now preserved")
 }
+
+// verifRefill: mode 0 = any refill period in 1ns..2^40ns (symbolic divisor);
+// mode 1 = one of the periods {1s, 3s} (constant divisor, deeper histories).
+func verifRefill(mode int) time.Duration {
+	if mode == 0 {
+		return time.Duration(verifrt.IntRange("refill", 1, 1<<40))
+	}
+	if verifrt.Choice("refillSel", 2) == 0 {
+		return time.Second
+	}
+	return 3 * time.Second
+}
+
+// verifArbBucket installs a bucket in an arbitrary state satisfying the
+// representation invariant 0 <= tokens <= max, lastRefill <= now.
+func verifArbBucket(rl *TokenBucketRateLimiter, client string, max int) *bucket {
+	tok := verifrt.IntRange("tok0", 0, max)
+	age := time.Duration(verifrt.IntRange("age", 0, 1<<50))
+	b := &bucket{tokens: tok, lastRefill: verifrt.Now().Add(-age)}
+	rl.buckets.Store(client, b)
+	return b
+}
+
+// VerifC09Window: k calls at arbitrary non-decreasing instants from an
+// arbitrary invariant state; every sub-window i..j admits at most
+// max + floor((tj-ti)/refill) + 1 requests. slack=1 is the property, slack=0
+// the negative twin.
+func VerifC09Window(k int, slack int, refillMode int) {
+	max := verifrt.IntRange("max", 1, 5)
+	refill := verifRefill(refillMode)
+	rl := verifLimiter(max, refill)
+	verifArbBucket(rl, "c", max)
+	var at [8]int64
+	var adm [8]int
+	t := int64(0)
+	for i := 0; i < k; i++ {
+		dt := verifrt.IntRange("dt", 0, 1<<42)
+		verifrt.Advance(time.Duration(dt))
+		t += int64(dt)
+		at[i] = t
+		if rl.Allow("c") {
+			adm[i] = 1
+		}
+	}
+	for i := 0; i < k; i++ {
+		n := 0
+		for j := i; j < k; j++ {
+			n += adm[j]
+			bound := int64(max) + (at[j]-at[i])/int64(refill) + int64(slack)
+			verifrt.Assert(int64(n) <= bound, "admitted in any window <= max + floor(T/refill) + 1")
+		}
+	}
+}
+
+// VerifC09Burst: a client never seen before gets exactly max admissions at
+// one instant and is then denied (created through the real getOrCreateBucket).
+func VerifC09Burst(max int) {
+	refill := time.Duration(verifrt.IntRange("refill", 1, 1<<40))
+	rl := verifLimiter(max, refill)
+	for i := 0; i < max; i++ {
+		verifrt.Assert(rl.Allow("new"), "new client: first max requests admitted")
+	}
+	verifrt.Assert(!rl.Allow("new"), "new client: request max+1 at the same instant denied")
+	// less than one refill period later it is still denied
+	dt := verifrt.IntRange("dt", 0, 1<<40)
+	verifrt.Assume(int64(dt) < int64(refill))
+	verifrt.Advance(time.Duration(dt))
+	verifrt.Assert(!rl.Allow("new"), "still denied before one refill period has passed")
+}
+
+// VerifC09Idle: after k refill periods of silence at least min(k,max) more
+// requests are admitted, from any invariant state.
+func VerifC09Idle(k int) {
+	max := verifrt.IntRange("max", 1, 5)
+	refillNs := verifrt.IntRange("refill", 1, 1<<36)
+	rl := verifLimiter(max, time.Duration(refillNs))
+	verifArbBucket(rl, "c", max)
+	extra := verifrt.IntRange("extra", 0, 1<<36)
+	verifrt.Advance(time.Duration(k*refillNs + extra))
+	want := k
+	for i := 0; i < 5; i++ {
+		if i < k {
+			ok := rl.Allow("c")
+			verifrt.Assert(verifrt.Or(i >= max, ok), "after k idle periods min(k,max) requests are admitted")
+		}
+	}
+	_ = want
+}
+
+// VerifC09Isolation (2-safety): client A's admissions are the same whether or
+// not client B's calls are interleaved.
+func VerifC09Isolation(k int, refillMode int) {
+	max := verifrt.IntRange("max", 1, 5)
+	refill := verifRefill(refillMode)
+	both := verifLimiter(max, refill)
+	alone := verifLimiter(max, refill)
+	tokA := verifrt.IntRange("tokA", 0, max)
+	ageA := time.Duration(verifrt.IntRange("ageA", 0, 1<<50))
+	both.buckets.Store("A", &bucket{tokens: tokA, lastRefill: verifrt.Now().Add(-ageA)})
+	alone.buckets.Store("A", &bucket{tokens: tokA, lastRefill: verifrt.Now().Add(-ageA)})
+	if verifrt.Bool("bKnown") {
+		tokB := verifrt.IntRange("tokB", 0, max)
+		ageB := time.Duration(verifrt.IntRange("ageB", 0, 1<<50))
+		both.buckets.Store("B", &bucket{tokens: tokB, lastRefill: verifrt.Now().Add(-ageB)})
+	}
+	for i := 0; i < k; i++ {
+		verifrt.Advance(time.Duration(verifrt.IntRange("dt", 0, 1<<42)))
+		if verifrt.Choice("who", 2) == 0 {
+			r1 := both.Allow("A")
+			r2 := alone.Allow("A")
+			verifrt.Assert(r1 == r2, "A's verdict does not depend on B's traffic")
+		} else {
+			both.Allow("B")
+		}
+	}
+}
+
+// VerifC09Cleanup: the cleanup pass only ever removes buckets idle for more
+// than an hour, so a removed client restarts with a full burst (consistent
+// with the idle clause) and a recently used bucket keeps its state.
+func VerifC09Cleanup() {
+	max := verifrt.IntRange("max", 1, 5)
+	refill := time.Duration(verifrt.IntRange("refill", 1, 1<<40))
+	rl := verifLimiter(max, refill)
+	tok := verifrt.IntRange("tok0", 0, max)
+	age := time.Duration(verifrt.IntRange("age", 0, 1<<50))
+	b := &bucket{tokens: tok, lastRefill: verifrt.Now().Add(-age)}
+	rl.buckets.Store("c", b)
+	rl.cleanup()
+	v, present := rl.buckets.Load("c")
+	verifrt.Assert(verifrt.Implies(age <= time.Hour, present), "bucket used within the last hour survives cleanup")
+	if present {
+		verifrt.Assert(v.(*bucket) == b && b.tokens == tok, "surviving bucket is unchanged")
+	}
+}
